@@ -712,8 +712,10 @@ func (n *ExtendsNode) Render(w io.Writer, ctx *RenderContext) error {
 	// Handle relative paths for templates
 	resolvedName := templateName
 	if strings.HasPrefix(templateName, "./") || strings.HasPrefix(templateName, "../") {
-		// Get the directory of the current template
-		currentTemplate := ctx.engine.currentTemplate
+		// Get the directory of the template this context is rendering (not of
+		// whatever template the engine started to render last: other goroutines
+		// render other templates on the same engine)
+		currentTemplate := ctx.currentTemplateName()
 		if currentTemplate != "" {
 			// Extract the directory part of the current template
 			currentDir := filepath.Dir(currentTemplate)
@@ -802,8 +804,10 @@ func (n *IncludeNode) Render(w io.Writer, ctx *RenderContext) error {
 	// Handle relative paths for templates
 	resolvedName := templateName
 	if strings.HasPrefix(templateName, "./") || strings.HasPrefix(templateName, "../") {
-		// Get the directory of the current template
-		currentTemplate := ctx.engine.currentTemplate
+		// Get the directory of the template this context is rendering (not of
+		// whatever template the engine started to render last: other goroutines
+		// render other templates on the same engine)
+		currentTemplate := ctx.currentTemplateName()
 		if currentTemplate != "" {
 			// Extract the directory part of the current template
 			currentDir := filepath.Dir(currentTemplate)
@@ -864,7 +868,8 @@ func (n *IncludeNode) Render(w io.Writer, ctx *RenderContext) error {
 
 		// Create a new context
 		includeCtx = NewRenderContext(ctx.env, contextVars, ctx.engine)
-		// Set the template as the lastLoadedTemplate for relative path resolutionn			includeCtx.lastLoadedTemplate = template
+		// Set the template as the lastLoadedTemplate for relative path resolution
+		includeCtx.lastLoadedTemplate = template
 		defer includeCtx.Release()
 
 		// A template included from inside a sandbox stays inside it
@@ -1236,8 +1241,10 @@ func (n *ImportNode) Render(w io.Writer, ctx *RenderContext) error {
 	// Handle relative paths for templates
 	resolvedName := templateName
 	if strings.HasPrefix(templateName, "./") || strings.HasPrefix(templateName, "../") {
-		// Get the directory of the current template
-		currentTemplate := ctx.engine.currentTemplate
+		// Get the directory of the template this context is rendering (not of
+		// whatever template the engine started to render last: other goroutines
+		// render other templates on the same engine)
+		currentTemplate := ctx.currentTemplateName()
 		if currentTemplate != "" {
 			// Extract the directory part of the current template
 			currentDir := filepath.Dir(currentTemplate)
@@ -1264,7 +1271,8 @@ func (n *ImportNode) Render(w io.Writer, ctx *RenderContext) error {
 	// Create a new context for the imported template
 	importCtx := NewRenderContext(ctx.env, nil, ctx.engine)
 	importCtx.sandboxed = ctx.sandboxed // An imported template stays inside the sandbox
-	// Set the template as the lastLoadedTemplate for relative path resolutionn	importCtx.lastLoadedTemplate = template
+	// Set the template as the lastLoadedTemplate for relative path resolution
+	importCtx.lastLoadedTemplate = template
 
 	// Ensure context is released even in error paths
 	defer importCtx.Release()
@@ -1328,8 +1336,10 @@ func (n *FromImportNode) Render(w io.Writer, ctx *RenderContext) error {
 	// Handle relative paths for templates
 	resolvedName := templateName
 	if strings.HasPrefix(templateName, "./") || strings.HasPrefix(templateName, "../") {
-		// Get the directory of the current template
-		currentTemplate := ctx.engine.currentTemplate
+		// Get the directory of the template this context is rendering (not of
+		// whatever template the engine started to render last: other goroutines
+		// render other templates on the same engine)
+		currentTemplate := ctx.currentTemplateName()
 		if currentTemplate != "" {
 			// Extract the directory part of the current template
 			currentDir := filepath.Dir(currentTemplate)
@@ -1356,7 +1366,8 @@ func (n *FromImportNode) Render(w io.Writer, ctx *RenderContext) error {
 	// Create a new context for the imported template
 	importCtx := NewRenderContext(ctx.env, nil, ctx.engine)
 	importCtx.sandboxed = ctx.sandboxed // An imported template stays inside the sandbox
-	// Set the template as the lastLoadedTemplate for relative path resolutionn	importCtx.lastLoadedTemplate = template
+	// Set the template as the lastLoadedTemplate for relative path resolution
+	importCtx.lastLoadedTemplate = template
 
 	// Ensure context is released even in error paths
 	defer importCtx.Release()
